@@ -27,6 +27,59 @@ fn show(errs: &[SplError]) -> Vec<String> {
     errs.iter().map(|e| format!("{:?} {}", e.0, e.1.to_string().trim())).collect()
 }
 
+/// The rule a diagnostic names, independent of its wording: the variant of the message enum and
+/// its arguments, read from the `Debug` form (`SemanticErrorMessage(ArgumentsTypeMismatch("p", 2))`
+/// -> ("ArgumentsTypeMismatch", ["p", "2"])). The statement asks that the diagnostic *names the
+/// rule*; how the message is phrased is left to the server.
+fn rule_of(m: &ErrorMessage) -> (String, Vec<String>) {
+    let d = format!("{:?}", m);
+    let inner = d.split_once('(').map_or(d.as_str(), |x| x.1);
+    let inner = inner.strip_suffix(')').unwrap_or(inner);
+    match inner.split_once('(') {
+        None => (inner.to_string(), vec![]),
+        Some((v, rest)) => {
+            let rest = rest.strip_suffix(')').unwrap_or(rest);
+            let args = rest.split(", ").map(|a| a.trim_matches(|c| c == '"' || c == '\'').to_string()).collect();
+            (v.to_string(), args)
+        }
+    }
+}
+
+/// the items written in back-ticks in a predicted message (names, argument indices, tokens)
+fn backticked(text: &str) -> Vec<String> {
+    text.split('`').skip(1).step_by(2).map(|x| x.to_string()).collect()
+}
+
+/// Does the diagnostic name the rule `kind` with the arguments of the predicted message?
+/// (`kind` = variant name of the build / semantic message enums; for syntax messages the variant
+/// is derived from the predicted text.)
+fn names_rule(m: &ErrorMessage, kind: &str, predicted: &str) -> bool {
+    let (variant, args) = rule_of(m);
+    let want_variant = match kind {
+        "" => {
+            if predicted.starts_with("missing trailing") {
+                "MissingTrailingSemic"
+            } else if predicted.starts_with("missing closing") {
+                "MissingClosing"
+            } else if predicted.starts_with("missing opening") {
+                "MissingOpening"
+            } else if predicted.starts_with("expected") {
+                "ExpectedToken"
+            } else {
+                return m.to_string().trim() == predicted;
+            }
+        }
+        k => k,
+    };
+    if variant != want_variant {
+        return false;
+    }
+    // the enum's arguments appear, in order, among the back-ticked items of the prediction
+    let items = backticked(predicted);
+    let mut it = items.iter();
+    args.iter().all(|a| it.any(|x| x == a))
+}
+
 /// every published range lies inside the document (client rules) and maps back to the same bytes
 fn published_range_problem(text: &str, e: &SplError) -> Option<String> {
     if e.0.start > e.0.end || e.0.end > text.len() || !text.is_char_boundary(e.0.start) || !text.is_char_boundary(e.0.end) {
@@ -228,7 +281,7 @@ impl Check for SingleFault {
         }
         let e = &errs[0];
         let msg = e.1.to_string();
-        if msg.trim() != fault.message || is_syntactic(e) {
+        if !names_rule(&e.1, kind_name, &fault.message) || is_syntactic(e) {
             r.fail(
                 format!("wrong-message|{}", kind_name),
                 format!("expected the diagnostic {:?}, got {:?}", fault.message, msg.trim()),
@@ -309,6 +362,7 @@ fn decode_many(bytes: &[u8]) -> ManyCase {
     let mut prog = gen_prog(&mut s, &cfg);
     let mut kinds = Vec::new();
     let mut messages: Vec<String> = Vec::new();
+    let mut message_kinds: Vec<usize> = Vec::new();
     let mut steps = Vec::new();
     for _ in 0..k {
         // statement-level kinds only (indices 10..): they are placed in statement lists and do
@@ -317,12 +371,12 @@ fn decode_many(bytes: &[u8]) -> ManyCase {
         let Some(f) = faults::inject(&mut s, &prog, kind) else { break };
         kinds.push(kind);
         messages.push(f.message.clone());
+        message_kinds.push(kind);
         prog = f.prog;
         let r = render(&prog);
         let style = *s.pick(&[Style::Spaced, Style::Commented, Style::Plain]);
         let l = gen_layout(&r.toks, &mut s, style);
-        let mut want = messages.clone();
-        want.sort();
+        let want: Vec<String> = messages.iter().zip(&message_kinds).map(|(m, k)| format!("{}|{}", KINDS[*k], m)).collect();
         steps.push((lay(&r.toks, &l).text, want));
     }
     ManyCase { kinds, steps }
@@ -356,9 +410,20 @@ impl Check for TwoFaults {
                     return r;
                 }
             };
-            let mut got: Vec<String> = errs.iter().map(|e| e.1.to_string().trim().to_string()).collect();
-            got.sort();
-            if &got != want {
+            // every predicted (rule, arguments) is named by exactly one diagnostic and vice versa
+            let got: Vec<String> = errs.iter().map(|e| e.1.to_string().trim().to_string()).collect();
+            let mut unmatched: Vec<&SplError> = errs.iter().collect();
+            let mut all_found = true;
+            for w in want {
+                let (kind, text) = w.split_once('|').unwrap_or(("", w.as_str()));
+                match unmatched.iter().position(|e| names_rule(&e.1, kind, text)) {
+                    Some(i) => {
+                        unmatched.remove(i);
+                    }
+                    None => all_found = false,
+                }
+            }
+            if !all_found || !unmatched.is_empty() {
                 if j == 0 {
                     // a single violation is the subject of the single-fault part
                     r.excluded.push(format!("first-fault-alone-not-as-predicted:{}", names[0]));
@@ -510,7 +575,7 @@ impl Check for MissingToken {
             }
         };
         let detail = || json!({ "text": case.text, "deleted": case.site, "expected_message": case.expected, "expected_at": case.at, "diagnostics": show(&errs) });
-        let hit = errs.iter().any(|e| e.1.to_string().trim() == case.expected && e.0.is_empty() && e.0.start == case.at);
+        let hit = errs.iter().any(|e| names_rule(&e.1, "", &case.expected) && e.0.is_empty() && e.0.start == case.at);
         if !hit {
             r.fail(
                 format!("missing-token-not-reported|{}", case.expected),
@@ -552,7 +617,7 @@ pub fn run(ctx: &Ctx) -> i32 {
     finish(
         ctx,
         parts,
-        "part 1: well-typed programs (1-8 declarations, nested arrays, reference parameters, shadowing locals, nested control flow) in random layouts with comments must have no diagnostic (directly and, for 1/8 of the cases, through the document broker's publishDiagnostics); part 2b: 2-12 independent statement-level violations (any of the 17 statement-level kinds, injected one after the other, anywhere) must give exactly the predicted messages after every injection (one diagnostic must not hide, end, cap or deduplicate another); part 2: the same programs plus valid helper declarations plus ONE injected violation of one of the 27 build/semantic rules at a random place (any procedure, any block depth, optionally buried in a larger expression) must have exactly one diagnostic, with the rule's message, on the culprit; part 3: one token of a curated list deleted -> the matching missing-token message at the end of the preceding token, all syntax diagnostics inside the damaged declaration; non-trivial = comments/shadowing/arrays present (part 1), fault nested or not in the first declaration or comments present (part 2), every case (part 3); distinct = distinct text",
+        "part 1: well-typed programs (1-8 declarations, nested arrays, reference parameters, shadowing locals, nested control flow) in random layouts with comments must have no diagnostic (directly and, for 1/8 of the cases, through the document broker's publishDiagnostics); part 2b: 2-12 independent statement-level violations (any of the 17 statement-level kinds, injected one after the other, anywhere) must give exactly the predicted messages after every injection (one diagnostic must not hide, end, cap or deduplicate another); part 2: the same programs plus valid helper declarations plus ONE injected violation of one of the 27 build/semantic rules at a random place (any procedure, any block depth, optionally buried in a larger expression) must have exactly one diagnostic that names the rule (variant of the message enum and its arguments; the wording is not compared), on the culprit; part 3: one token of a curated list deleted -> the matching missing-token message at the end of the preceding token, all syntax diagnostics inside the damaged declaration; non-trivial = comments/shadowing/arrays present (part 1), fault nested or not in the first declaration or comments present (part 2), every case (part 3); distinct = distinct text",
         &[
             "layouts use LF and CRLF line ends only (lone CR is C08's subject)",
             "for rules that name an identifier the diagnostic must cover exactly that identifier token; for the others it must lie within the culprit construct (its leading comments included), start and end on token boundaries and reach its first token",
